@@ -198,7 +198,7 @@ struct Runner : CommandRunner {
       string c;
       int layout = es.value("depfile_layout", 0);
       string tgt = es.value("depfile_target", e->outputs_[0]->path());
-      json hidden = es.value("hidden", json::array());
+      json hidden = es.value("hidden_spelled", es.value("hidden", json::array()));
       if (layout == 1) { c = tgt + ": \\\n"; for (auto& h : hidden) c += "  " + h.get<string>() + " \\\n"; c += "\n"; }
       else if (layout == 2) { c = tgt + ":"; for (auto& h : hidden) c += " " + h.get<string>(); c += "\r\n"; for (auto& h : hidden) c += h.get<string>() + ":\r\n"; }
       else if (layout == 3) { for (auto& h : hidden) c += tgt + ": " + h.get<string>() + "\n"; if (hidden.empty()) c = tgt + ":\n"; }
